@@ -78,17 +78,31 @@ Proof. vm_compute. repeat split; reflexivity. Qed.
 Example C29_refuted_D21_converted :
   refuted (self_n [] [11; 12] [] [] (only_names [(0, 1); (1, 2)] [] []) [NEdit (LocalToImport 1 21) None]) 21.
 Proof. vm_compute. repeat split; reflexivity. Qed.
-(* D25: Module::set_fn_name on the local function 0 after add_import_func: assertion panic *)
-Example C29_refuted_D25_panic :
-  refuted (self_n [] [11] [] [] (only_names [] [] []) [NEdit (AddImport SF 9) None; NSetFn 0 5]) 25.
+(* D25 (remaining part): imports.set_fn_name with the FunctionID of an import added after parsing (id 1, behind the local function):
+   there is no 2nd function entry in the import vector, nothing is named *)
+Example C29_refuted_D25_imports_api :
+  refuted (self_n [] [11] [] [] (only_names [] [] []) [NEdit (AddImport SF 9) None; NImpSetFn 1 7]) 25.
 Proof. vm_compute. repeat split; reflexivity. Qed.
-(* D25: imports.set_fn_name(FunctionID 1) with a global import in front names function 0 *)
-Example C29_refuted_D25_miscount :
-  refuted (self_n [(1, 1); (0, 2); (0, 3)] [11] [] [] (only_names [] [] []) [NImpSetFn 1 7]) 25.
+
+(* ---- repaired (fix: commits in /repo): the former refutation witnesses are positive examples now ---- *)
+Definition repaired (c : ncase) (fn : nmap) : Prop :=
+  agree c = true /\ dom_of (verdict29 c) = true /\ holds_of (verdict29 c) = true /\ known_of (verdict29 c) = []
+  /\ option_map (fun en => n_funcs (snd en)) (no_enc c) = Some fn.
+(* former D25: Module::set_fn_name on the local function 0 after add_import_func names it (it is function 1 now) *)
+Example C29_repaired_D25_set_fn_name :
+  repaired (self_n [] [11] [] [] (only_names [] [] []) [NEdit (AddImport SF 9) None; NSetFn 0 5]) [(1, 5)].
 Proof. vm_compute. repeat split; reflexivity. Qed.
-(* 201: FunctionBuilder::set_name is overwritten with the import's field name by replace_import_in_module *)
-Example C29_refuted_201 :
-  refuted (self_n [(0, 1)] [11] [] [] (only_names [] [] []) [NEdit (ImportToLocal 0 21) (Some 7)]) 201.
+(* former D25: Module::set_fn_name on the added import itself (id 1 >= the parsed import count) *)
+Example C29_repaired_D25_added_import :
+  repaired (self_n [] [11] [] [] (only_names [] [] []) [NEdit (AddImport SF 9) None; NSetFn 1 5]) [(0, 5)].
+Proof. vm_compute. repeat split; reflexivity. Qed.
+(* former D25: imports.set_fn_name(FunctionID 1) with a global import in front names function 1 *)
+Example C29_repaired_D25_miscount :
+  repaired (self_n [(1, 1); (0, 2); (0, 3)] [11] [] [] (only_names [] [] []) [NImpSetFn 1 7]) [(1, 7)].
+Proof. vm_compute. repeat split; reflexivity. Qed.
+(* former D201: replace_import_in_module keeps the name set on the FunctionBuilder *)
+Example C29_repaired_201 :
+  repaired (self_n [(0, 1)] [11] [] [] (only_names [] [] []) [NEdit (ImportToLocal 0 21) (Some 7)]) [(1, 7)].
 Proof. vm_compute. repeat split; reflexivity. Qed.
 (* 202: imports.set_name on a global import never reaches the name section *)
 Example C29_refuted_202 :
